@@ -44,13 +44,15 @@ type c05Cfg struct {
 	// loop runs on the caller's goroutine); CancelFrac as ShutFrac
 	CancelAt   int `json:"caller_cancels_after_attempt,omitempty"`
 	CancelFrac int `json:"caller_cancels_at_percent_of_wait,omitempty"`
+	// ShutDuring > 0: Shutdown is requested while that attempt is in flight (before the backend answers it)
+	ShutDuring int `json:"shutdown_during_attempt,omitempty"`
 }
 
 func c05Config(tp *simkit.Tape) c05Cfg {
 	c := c05Cfg{}
 	c.Signal = adapters[tp.Draw(3)].name
 	c.Enabled = !tp.Chance(1, 8)
-	c.InitialMs = []int{100, 500, 1000, 5000}[tp.Draw(4)]
+	c.InitialMs = []int{100, 500, 1000, 5000, 0}[tp.Weighted(3, 3, 3, 3, 1)] // 0: every computed wait is zero
 	c.MaxMs = c.InitialMs * []int{1, 2, 4, 10}[tp.Draw(4)]
 	c.Mult = []float64{1, 1.5, 2}[tp.Draw(3)]
 	if tp.Chance(1, 5) {
@@ -87,6 +89,9 @@ func c05Config(tp *simkit.Tape) c05Cfg {
 	} else if tp.Chance(1, 6) {
 		c.CancelAt = tp.Range(1, n)
 		c.CancelFrac = []int{0, 50, 99}[tp.Draw(3)]
+	} else if tp.Chance(1, 5) {
+		c.ShutDuring = tp.Range(1, n)
+		c.Persistent = tp.Chance(1, 2)
 	}
 	return c
 }
@@ -284,6 +289,15 @@ func runC05(r *simkit.Run) {
 			}
 		}
 		id := parked[0]
+		duringShut := false
+		if cfg.ShutDuring == attempt && !shutFired && kind != "hang" && !late {
+			// Shutdown is requested while this attempt is in flight; the backend answers afterwards
+			shutFired = true
+			duringShut = true
+			r.Count("fault.shutdown_during_attempt")
+			simkit.Go("shutdown", func(t *simkit.Task) { t.Err = exp.Shutdown(context.Background()) })
+			r.Fire("shutdown-during-attempt", func() {})
+		}
 		if kind == "hang" {
 			// the backend never answers: the attempt ends by its timeout or the caller's deadline, if any
 			lim := time.Duration(0)
@@ -376,6 +390,20 @@ func runC05(r *simkit.Run) {
 		}
 		if mustNot {
 			must = false
+		}
+		if duringShut {
+			// the exporter is shutting down: a failed attempt is not retried, whatever the wait would have been. Whether
+			// the request ends as a final failure (budget used up) or is kept (interrupted by shutdown) follows the budget.
+			switch {
+			case mustNot:
+				verdict = "gave-up-during-shutdown"
+			case must:
+				verdict = "shutdown-during"
+			default:
+				verdict = "shutdown-during-or-gave-up"
+			}
+			r.Fire("advance:long", func() { time.Sleep(10 * time.Minute) })
+			continue
 		}
 		if must && cfg.ShutAt == attempt && !shutFired {
 			// shutdown arrives inside the wait that follows this attempt
@@ -480,6 +508,10 @@ func runC05(r *simkit.Run) {
 				if experr.IsShutdownErr(err) {
 					r.Failf("result", "spurious-shutdown-error", "no shutdown happened but the error is shutdown-classified: %v", err)
 				}
+			case "shutdown-during", "gave-up-during-shutdown", "shutdown-during-or-gave-up":
+				if err == nil {
+					r.Failf("result", "failure-reported-as-success", "the attempt in flight when Shutdown was requested failed but the caller got nil")
+				}
 			case "shutdown":
 				if err == nil || !experr.IsShutdownErr(err) {
 					r.Failf("result", "shutdown-not-classified", "a retry wait interrupted by shutdown ended with %v, which is not shutdown-classified", err)
@@ -487,7 +519,7 @@ func runC05(r *simkit.Run) {
 			}
 		}
 	}
-	if !r.Failed() && cfg.Persistent && verdict == "shutdown" {
+	if !r.Failed() && cfg.Persistent && (verdict == "shutdown" || verdict == "shutdown-during") { // (not for the two other during-shutdown verdicts)
 		// the request must still be stored: a fresh incarnation hands it over again
 		be2 := newBackend(ad, func() int64 { return time.Now().UnixNano() })
 		exp2 := build(be2)
